@@ -263,7 +263,9 @@ Definition due_ok (c : case) : bool :=
 
 Definition c14_ok (c : case) : bool :=
   numbers_ok (N.of_nat (length (c_cmds c))) (c_pre_objs c) (c_post_objs c) && due_ok c
-  && thresholds_ok (e_now (c_env c)) (c_renew c).
+  && thresholds_ok (e_now (c_env c)) (c_renew c)
+  (* a renewal run re-issues exactly the objects that expire before the threshold of their kind *)
+  && renew_ok (c_pre c) (c_renew c) (flat_map m_evs (c_cmds c)).
 
 Fixpoint failing_from {A} (f : A -> bool) (i : N) (l : list A) : list N :=
   match l with
